@@ -6,8 +6,8 @@ BUILDS = ("pure", "compiled")  # asynq/tools.py itself is plain Python in both; 
 RULE = ("breadth-first search over ALL operation histories up to the length bound, per configuration, on the real decorators: "
         "alru_cache (maxsize 1..3; default key, a normalising key_fn and a key_fn that ignores one parameter; on the module-level "
         "function f(a, b=2, *, c=0) and on the method m(self, a, b=2) of a class with 2 instances), acached_per_instance "
-        "(methods m(self, a, b=2) and n(self, a, *, c=0), 2 instances, `del instance; gc.collect()` as an operation, the next call "
-        "on the slot creates a new instance), alazy_constant (ttl 0 and 5 under a scripted clock with operations clock += 0/4/6, "
+        "(methods m(self, a, b=2) and n(self, a, *, c=0), in the thorough tier also p(self, a, b=2, *, c=0); 2 instances, "
+        "`del instance; gc.collect()` as an operation, the next call on the slot creates a new instance), alazy_constant (ttl 0 and 5 under a scripted clock with operations clock += 0/4/6, "
         "dirty(), and 'the next body run raises'). One operation = one call through fn(...) or fn.asynq(...).value() with "
         "a in {1,2}, b in {omitted, =default, other}, keyword-only c in {omitted, other} in every positional/keyword/mixed "
         "spelling (32 spellings of f, 16 of m, 12 of n), body returning at once or blocking on a harness batch item first "
@@ -31,13 +31,13 @@ TECHNIQUE = "explicit-state BFS over operation histories on the real objects vs 
 DEPTH = {"quick": {"alru": 4, "acpi": 4, "alazy": 8}, "thorough": {"alru": 6, "acpi": 6, "alazy": 10}}
 
 
-def configs():
+def configs(tier="quick"):
     """simplest first"""
     out = []
     for ttl in (0, 5):
         for body in ("imm", "block"):
             out.append({"fam": "alazy", "ttl": ttl, "body": body})
-    for sig in ("ab", "ac"):
+    for sig in ("ab", "ac") + (("abc",) if tier == "thorough" else ()):
         for body in ("imm", "block"):
             out.append({"fam": "acpi", "sig": sig, "body": body})
     for maxsize in (1, 2, 3):
@@ -49,14 +49,14 @@ def configs():
 
 
 def jobs(tier, seed):
-    cfgs = configs()
+    cfgs = configs(tier)
     # the runner hands jobs to workers in order: big configurations first keeps the tail short; the enumeration
     # inside each configuration is simplest-first (BFS by history length)
     def cost(c):
         if c["fam"] == "alazy":
             return 0
         if c["fam"] == "acpi":
-            return 30 + (c["sig"] == "ab") + (c["body"] == "block")
+            return 30 + {"abc": 1000, "ab": 1, "ac": 0}[c["sig"]] + (c["body"] == "block")
         # default-key configurations are by far the largest while the known key defect multiplies the real cache states
         return (10 * c["maxsize"] + {"default": 100, "norm": 2, "coarse": 0}[c["key"]] * (c["maxsize"] - 1)
                 + 3 * (c["target"] == "function") + (c["body"] == "block"))
@@ -83,8 +83,9 @@ def replay(case, env):
 
 
 def finish(acc, tier):
-    return {"bounds": {"history length": DEPTH[tier], "configurations": len(configs()),
+    return {"bounds": {"history length": DEPTH[tier], "configurations": len(configs(tier)),
                        "alru": "maxsize 1-3 x key {default, norm key_fn, coarse key_fn} x {function, method} x body {imm, block}",
-                       "acpi": "signature {m(self,a,b=2), n(self,a,*,c=0)} x body {imm, block}, 2 instance slots",
+                       "acpi": "signature {m(self,a,b=2), n(self,a,*,c=0)%s} x body {imm, block}, 2 instance slots"
+                               % (", p(self,a,b=2,*,c=0)" if tier == "thorough" else ""),
                        "alazy": "ttl {0,5} x body {imm, block}, clock steps {0,4,6}",
                        "calling forms": ["fn(...)", "fn.asynq(...).value()"]}}
